@@ -75,6 +75,29 @@ def forRangeP {α σ ρ : Type} (body : α → σ → Step σ ρ) : List α → 
     | .brk s' => .done s'
     | .ret r => .ret r
 
+/-- `for cond { body }`, effect-free: at most `fuel` iterations (a translated function declares a bound; the tie theorems
+show that the loop ends by its condition or a `break`/`return` before the fuel runs out) -/
+def whileP {σ ρ : Type} : Nat → (σ → Bool) → (σ → Step σ ρ) → σ → Out σ ρ
+  | 0, _, _, s => .done s
+  | fuel + 1, cond, body, s =>
+    if cond s then
+      match body s with
+      | .next s' => whileP fuel cond body s'
+      | .brk s' => .done s'
+      | .ret r => .ret r
+    else .done s
+
+/-- `for cond { body }` with effects -/
+def whileR {σ ρ : Type} : Nat → (σ → Bool) → (σ → Res (Step σ ρ)) → σ → Res (Out σ ρ)
+  | 0, _, _, s => Res.pure (.done s)
+  | fuel + 1, cond, body, s =>
+    if cond s then
+      Res.bind (body s) fun
+        | .next s' => whileR fuel cond body s'
+        | .brk s' => Res.pure (.done s')
+        | .ret r => Res.pure (.ret r)
+    else Res.pure (.done s)
+
 namespace Lib
 def len {α} (l : List α) : Int := l.length
 def notNil {α} (o : Option α) : Bool := o.isSome
@@ -256,6 +279,66 @@ structure CHConfig where
 structure ConsistentHashing where
   config : CHConfig
 
+
+/-! ### the admin-command scanner as the readers see it (imperatives/imperatives.go) -/
+/-- the token kinds of imperatives.go's `const` block, plus toki's `EOF` and `Error` -/
+inductive Token where
+  | addBlack | addAgg | addRouteSendAllMatch | addRouteSendFirstMatch | addRouteConsistentHashing | addRouteGrafanaNet | addRouteKafkaMdm | addRoutePubSub | addDest | addRewriter | delRoute | modDest | modRoute | str | sep | avgFn | countFn | deltaFn | deriveFn | lastFn | maxFn | minFn | stdevFn | sumFn | num | optPrefix | optNotPrefix | optAddr | optCache | optDropRaw | optBlocking | optSub | optNotSub | optRegex | optNotRegex | optFlush | optReconn | optConnBufSize | optIoBufSize | optSpoolBufSize | optSpoolMaxBytesPerFile | optSpoolSyncEvery | optSpoolSyncPeriod | optSpoolSleep | optTLSEnabled | optTLSSkipVerify | optTLSClientCert | optTLSClientKey | optSASLEnabled | optSASLMechanism | optSASLUsername | optSASLPassword | optUnspoolSleep | optPickle | optSpool | optTrue | optFalse | optBufSize | optFlushMaxNum | optFlushMaxWait | optTimeout | optSSLVerify | optErrBackoffMin | optErrBackoffFactor | word | optConcurrency | optOrgId | optPubSubProject | optPubSubTopic | optPubSubFormat | optPubSubCodec | optPubSubFlushMaxSize | EOF | Error
+  deriving DecidableEq, Repr, Inhabited
+export Token (addBlack addAgg addRouteSendAllMatch addRouteSendFirstMatch addRouteConsistentHashing addRouteGrafanaNet addRouteKafkaMdm addRoutePubSub addDest addRewriter delRoute modDest modRoute str sep avgFn countFn deltaFn deriveFn lastFn maxFn minFn stdevFn sumFn num optPrefix optNotPrefix optAddr optCache optDropRaw optBlocking optSub optNotSub optRegex optNotRegex optFlush optReconn optConnBufSize optIoBufSize optSpoolBufSize optSpoolMaxBytesPerFile optSpoolSyncEvery optSpoolSyncPeriod optSpoolSleep optTLSEnabled optTLSSkipVerify optTLSClientCert optTLSClientKey optSASLEnabled optSASLMechanism optSASLUsername optSASLPassword optUnspoolSleep optPickle optSpool optTrue optFalse optBufSize optFlushMaxNum optFlushMaxWait optTimeout optSSLVerify optErrBackoffMin optErrBackoffFactor word optConcurrency optOrgId optPubSubProject optPubSubTopic optPubSubFormat optPubSubCodec optPubSubFlushMaxSize)
+def toki_EOF : Token := Token.EOF
+/-- a scanned token: kind and text -/
+structure TokV where
+  Token : Token
+  Value : Bytes
+  deriving Inhabited
+/-- `*toki.Scanner` after tokenisation: the tokens still to come (`Crng.Tk.scan` is the byte-level model of the tokeniser) -/
+structure Scanner where
+  toks : List TokV
+/-- `Next()`: the next token; at the end of the input `EOF`, again and again -/
+def Scanner.Next (s : Scanner) : TokV × Scanner :=
+  match s.toks with
+  | [] => (⟨Token.EOF, []⟩, s)
+  | t :: r => (t, ⟨r⟩)
+def time_Second : Int := 1000000000
+def time_Millisecond : Int := 1000000
+def time_Microsecond : Int := 1000
+instance : Add Bytes := ⟨List.append⟩
+/-- `table.Interface` as `readDestination` uses it -/
+structure TableI where
+  GetSpoolDir : Bytes
+/-- the six filter options handed to `matcher.New` -/
+structure MatcherArgs where
+  prefix_ : Bytes
+  notPrefix : Bytes
+  sub : Bytes
+  notSub : Bytes
+  regex : Bytes
+  notRegex : Bytes
+  deriving DecidableEq, Inhabited
+/-- the arguments of `destination.New`, in its parameter order -/
+structure DestArgs where
+  routeName : Bytes
+  matcher : MatcherArgs
+  addr : Bytes
+  spoolDir : Bytes
+  spool : Bool
+  pickle : Bool
+  periodFlush : Int
+  periodReConn : Int
+  connBufSize : Int
+  ioBufSize : Int
+  spoolBufSize : Int
+  spoolMaxBytesPerFile : Int
+  spoolSyncEvery : Int
+  spoolSyncPeriod : Int
+  spoolSleep : Int
+  unspoolSleep : Int
+  deriving DecidableEq, Inhabited
+abbrev DestP := Option DestArgs
+/-- imperatives.go `errFmtAddRoute` -/
+def errFmtAddRoute : Err := some "addRoute <type> <key> [prefix/sub/regex=,..]  <dest>  [<dest>[...]]"
+
 /-- package-level functions of other packages that translated code calls and that are modelled elsewhere -/
 structure Env where
   /-- `m20.ValidatePacket(buf, legacyLevel, m20Level)` = (key, val, ts, err) -/
@@ -264,5 +347,15 @@ structure Env where
   validate_Ordered : Bytes → Int → Err
   /-- `computeRingPosition(key)`: first two MD5 bytes (modelled in `Crng.MD5` / `Crng.CHash`) -/
   computeRingPosition : Bytes → Int
+  /-- `strconv.Atoi`, `strconv.ParseBool`, `strings.TrimSpace` -/
+  strconv_Atoi : Bytes → Int × Err
+  strconv_ParseBool : Bytes → Bool × Err
+  strings_TrimSpace : Bytes → Bytes
+  /-- `matcher.New(prefix, notPrefix, sub, notSub, regex, notRegex)`: the matcher (here: its options) or an error -/
+  matcher_New : Bytes → Bytes → Bytes → Bytes → Bytes → Bytes → MatcherArgs × Err
+  /-- `destination.New(...)`: the destination (here: the arguments it was built from) or an error -/
+  destination_New : Bytes → MatcherArgs → Bytes → Bytes → Bool → Bool → Int → Int → Int → Int → Int → Int → Int → Int → Int → Int → DestP × Err
+instance : Inhabited Env := ⟨⟨fun _ _ _ => default, fun _ _ => default, fun _ => default, fun _ => default, fun _ => default, fun b => b,
+  fun _ _ _ _ _ _ => default, fun _ _ _ _ _ _ _ _ _ _ _ _ _ _ _ _ => default⟩⟩
 
 end Crng.Code
